@@ -445,7 +445,7 @@ fn main() {
         }
     }
     rep.count_n("corpus_cases", n_corpus);
-    let mut rng = Rng::new(args.seed);
+    let mut rng = Rng::new(args.seed.wrapping_mul(0xD1B5_4A32_D192_ED03));
     if args.replay.is_none() {
         let ints = boundary_ints();
         let floats = boundary_floats();
